@@ -60,7 +60,9 @@ ReadOne(role, bs, i, seen) ==
   LET f == FrameAt(bs, i) IN
   IF f.k = "more" THEN [k |-> "more", at |-> i]
   ELSE IF f.kind = "unknown" THEN
-    IF f.k = "err" THEN [k |-> "any"]      \* unknown type with an over-long payload
+    \* unknown type with a refused length: every path refuses the frame (nothing is skipped,
+    \* because the payload was never consumed - continuing would read it as frames)
+    IF f.k = "err" THEN [k |-> "err", codes |-> {E_LOAD}]
     ELSE ReadOne(role, bs, i + f.n, IF seen = "none" THEN "skip" ELSE seen)
   ELSE IF f.k = "err" THEN
     [k |-> "err", codes |-> IF f.e = "sid" THEN {E_ID} ELSE {E_LOAD}]
